@@ -322,10 +322,18 @@ func valOf(e sx.Sexp) px.Value {
 		for i, kv := range a[1:] {
 			es[i] = types.WrapHashEntry(valOf(kv.List[0]), valOf(kv.List[1]))
 		}
-		return px.New(curCtx, curCtx.ParseType(a[0].MustStr()), types.WrapHash(es))
+		tn := a[0].MustStr()
+		if tn == "" {
+			// an instance of an anonymous object type (written as the Hash of its init hash)
+			tn = anonymousObjectType
+		}
+		return px.New(curCtx, curCtx.ParseType(tn), types.WrapHash(es))
 	}
 	panic(fmt.Errorf("bad value %s", e))
 }
+
+// the anonymous object type whose instances `(o x (k v)*)` are
+const anonymousObjectType = `Object[{attributes => {a => Any, b => {type => Any, value => undef}}}]`
 
 // the context of the op being executed (type sources and object instances are built inside it)
 var curCtx px.Context
@@ -1040,6 +1048,10 @@ func expect(c px.Context, e sx.Sexp, v px.Value, m []entry, level int, entryMode
 // first: the value is rendered with an indentation whose IsFirst() holds (the key or value of a hash entry; an element of an
 // array gets Subsequent()) — it matters to a Type, whose parameter list breaks the line under an alt Array format unless first
 func expect2(c px.Context, e sx.Sexp, v px.Value, m []entry, level int, entryMode bool, first bool) (string, bool) {
+	if !entryMode && e.Tag() == "o" && e.Args()[0].MustStr() == "" {
+		// an instance of an anonymous object type is written as the Hash of its init hash
+		return expect2(c, sx.T("h", e.Args()[1:]...), v.(px.PuppetObject).InitHash().(*types.Hash), m, level, false, first)
+	}
 	tag := e.Tag()
 	if !isContainerTag(tag) && !entryMode {
 		out := deadline(func() string {
@@ -1676,6 +1688,9 @@ func kindsIn(e sx.Sexp, into map[byte]bool) {
 			kindsIn(k, into)
 		}
 	case "h", "o":
+		if e.Tag() == "o" && e.Args()[0].MustStr() == "" {
+			into['h'] = true // an instance of an anonymous object type is written as a Hash
+		}
 		for _, kv := range entriesOfValue(e) {
 			kindsIn(kv.List[0], into)
 			kindsIn(kv.List[1], into)
